@@ -405,8 +405,17 @@ def rule_r3(prog, res) -> None:
         res.violation("C10.R3", bi, bi.node, "Binning.closed is not set from the constructor parameter", key_extra="binning-init-closed")
 
 
+def rule_r4(prog, res) -> None:
+    """the closed side (and the edges) of a binning survive the trip to a worker process (pickle state protocol, shared with C05.R5)"""
+    from . import c05
+    from .common import shared_rule
+
+    shared_rule(res, c05.rule_r5, "C05", "C05.R5", "C10.R4")
+
+
 RULES = [
     ("C10.R1", rule_r1, QUICK),
     ("C10.R2", rule_r2, QUICK),
     ("C10.R3", rule_r3, QUICK),
+    ("C10.R4", rule_r4, QUICK),
 ]
